@@ -214,10 +214,16 @@ func c15rCheck(e *c15rEnv, p *vreport.Part, c c15rCase) {
 			}
 			// the most severe deviation only; the builder goes into the detail (the
 			// two builders are compared with each other by the in-package part)
-			if ps := c15ref.Judge(exp, o, true); len(ps) > 0 {
-				p.Violation(fmt.Sprintf("router-criteria | %s | %s", exp.Class, ps[0].What),
+			// wide scope: every deviation, not only the most severe one (see the
+			// in-package part: keeps the replay of a key independent of map order)
+			ps := c15ref.Judge(exp, o, true)
+			if len(ps) > 1 && c.Wide == nil {
+				ps = ps[:1]
+			}
+			for _, pb := range ps {
+				p.Violation(fmt.Sprintf("router-criteria | %s | %s", exp.Class, pb.What),
 					fmt.Sprintf("%s: route metadata_match=%v, criteria handed to the balancer by router.NewMetadataMatchCriteriaImpl: %v (fallback reason: %s; key sets: %s): %s; observed %s; hosts=%v selectors=%v policy=%d default=%v",
-						b, crit, handed, exp.Reason, exp.Rel, ps[0].Detail, o, c.Cfg.Hosts, c.Cfg.Selectors, c.Cfg.Policy, c.Cfg.Default), only())
+						b, crit, handed, exp.Reason, exp.Rel, pb.Detail, o, c.Cfg.Hosts, c.Cfg.Selectors, c.Cfg.Policy, c.Cfg.Default), only())
 			}
 		}
 	}
